@@ -77,16 +77,23 @@ def scenario(rng, kind):
             # replies are mostly lost while the spa keeps sending unsolicited partial updates: an attempt's
             # timeout runs from its own transmission, whatever else arrives in the meantime
             p_loss, p_late, p_dup = rng.choice([0.6, 0.85, 1.0]), 0.0, 0.0
-            period = rng.choice([0.13, 0.7, 1.9])
+            period = rng.choice([0.07, 0.13, 0.7, 1.9])
             sim_struct = s.peer.sim.structure
+
+            foreign_share = rng.choice([0.0, 0.5, 1.0])
 
             def chat():
                 if sc.s.loop.is_closed() or getattr(sc, "_stop_chat", False):
                     return
-                pos = rng.randrange(0, 1022)
-                data = bytes([rng.randrange(256), rng.randrange(256)])
-                sim_struct.replace_status_block_segment(pos, data)
-                s.inject(s.peer.push_changes(s.client_parms(), [(pos, data)]))
+                if rng.random() < foreign_share:
+                    # traffic that is not for this client at all (another client's frames, broken framing, unknown
+                    # verbs): it has no effect - in particular it does not keep a lost request waiting
+                    s.inject(rng.choice(_foreign(sc.spa)))
+                else:
+                    pos = rng.randrange(0, 1022)
+                    data = bytes([rng.randrange(256), rng.randrange(256)])
+                    sim_struct.replace_status_block_segment(pos, data)
+                    s.inject(s.peer.push_changes(s.client_parms(), [(pos, data)]))
                 s.loop.call_later(period, chat)
             s.loop.call_later(period, chat)
         if kind == "down":
@@ -112,6 +119,15 @@ def scenario(rng, kind):
                 s.advance(GeckoConfig.PING_FREQUENCY_IN_SECONDS + 0.5)
                 s.quiesce()
             net.blackhole = True
+            # while the spa is silent, traffic that is not for this client keeps arriving: it is no sign of life
+            fp = GeckoConfig.PING_FREQUENCY_IN_SECONDS / 3.0
+
+            def foreign_chat():
+                if sc.s.loop.is_closed() or getattr(sc, "_stop_chat", False):
+                    return
+                s.inject(rng.choice(_foreign(sc.spa)))
+                s.loop.call_later(fp, foreign_chat)
+            s.loop.call_later(fp, foreign_chat)
             s.advance(GeckoConfig.PING_FREQUENCY_IN_SECONDS * 2 + (1.5 if kind == "gate-active" else 30))
             if late:
                 # ... and stays silent until the client has declared it not responding; the calls arrive shortly
@@ -181,6 +197,14 @@ def scenario(rng, kind):
             if not t.done():
                 t.cancel()
         sc.close()
+
+
+def _foreign(spa):
+    from .c07 import frame
+    sid, cid = spa.descriptor.identifier, spa.client_id
+    return [frame(sid, b"IOSsomeone-else", b"STATP\x01\x01\x2c\xbe\xef"), frame(sid, b"IOSsomeone-else", b"APING\x00"),
+            frame(b"SPA99:99:99:99:99:99", cid, b"WCGET\x01"), b"<PACKT>no tags at all</PACKT>",
+            frame(sid, cid, b"XYZZY\x01"), b"stray bytes"]
 
 
 def clause_for(e):
